@@ -25,16 +25,20 @@ fn decorate(mut c: LinCase, bits: u64) -> LinCase {
     if !c.rows.is_empty() && c.n() > 0 {
         let r = pick(0, c.rows.len() as u64);
         let j = pick(4, c.n() as u64);
-        c.rows[r].coef[j] = match pick(8, 6) {
+        c.rows[r].coef[j] = match pick(8, 9) {
             0 => 1e-9,
             1 => -2.5e-7,
             2 => 1e9,
             3 => -3e8,
             4 => -0.0,
+            // whole numbers beyond the 64-bit integers and with more digits than an f64 holds
+            5 => 1e19,
+            6 => -3e20,
+            7 => 9007199254740993.0 * 1024.0,
             _ => c.rows[r].coef[j],
         };
         if bits >> 12 & 1 == 1 {
-            c.rows[r].rhs = [-0.0, 1e-9, -1e9, 12345.678][pick(13, 4)];
+            c.rows[r].rhs = [-0.0, 1e-9, -1e9, 12345.678, 3e20, -1e30, 9223372036854775808.0][pick(13, 7)];
         }
     }
     for (i, r) in c.rows.iter_mut().enumerate() {
@@ -48,10 +52,10 @@ fn decorate(mut c: LinCase, bits: u64) -> LinCase {
     }
     if c.n() > 0 && bits >> 40 & 1 == 1 {
         let j = pick(41, c.n() as u64);
-        c.obj[j] = [1e-9, -1e9, -0.0, 0.5][pick(44, 4)];
+        c.obj[j] = [1e-9, -1e9, -0.0, 0.5, 1e19, -1e25][pick(44, 6)];
     }
     if bits >> 46 & 1 == 1 {
-        c.offset = [-0.0, -2.5, 1e9, 1e-9][pick(47, 4)];
+        c.offset = [-0.0, -2.5, 1e9, 1e-9, -1e19, 1e30][pick(47, 6)];
     }
     // user names must be unique for the comparison to be meaningful (duplicates are the user's own)
     let mut seen = std::collections::BTreeSet::new();
@@ -81,7 +85,7 @@ impl Prop for C17 {
         serde_json::to_string(&c.pretty()).unwrap()
     }
     fn rule(&self) -> String {
-        "linear models through the public API: 0-5 variables of every domain kind (free, half-bounded, bounded, fixed, negative bounds, Boolean, integer range), 0-6 rows with integer / quarter / 1e-9 / 1e9 / negative-zero coefficients and right-hand sides, zero rows, named and unnamed rows where user names equal the names the exporter generates (c1, c2, ...), offsets of both signs and magnitudes, min / max / satisfy. to_lp_format() is read by an independent CPLEX-LP reader and compared with the model: sense (satisfy -> minimise), objective coefficients and constant, every row in order (user name, coefficients, relation, right-hand side; numbers must read back as the identical f64), all row names pairwise distinct, effective bounds after the format's defaults equal to the domain, Binary / General marks equal to Boolean / IntegerRange. Non-trivial = a variable with non-default bounds, a row led by a negative coefficient, and an offset or an unnamed row. Distinct = distinct model text.".into()
+        "linear models through the public API: 0-5 variables of every domain kind (free, half-bounded, bounded, fixed, negative bounds, Boolean, integer range), 0-6 rows with integer / quarter / 1e-9 / 1e9 / 1e19 .. 1e30 (beyond the 64-bit integers) / negative-zero coefficients and right-hand sides, zero rows, named and unnamed rows where user names equal the names the exporter generates (c1, c2, ...), offsets of both signs and magnitudes, min / max / satisfy. to_lp_format() is read by an independent CPLEX-LP reader and compared with the model: sense (satisfy -> minimise), objective coefficients and constant, every row in order (user name, coefficients, relation, right-hand side; numbers must read back as the identical f64), all row names pairwise distinct, effective bounds after the format's defaults equal to the domain, Binary / General marks equal to Boolean / IntegerRange. Non-trivial = a variable with non-default bounds, a row led by a negative coefficient, and an offset or an unnamed row. Distinct = distinct model text.".into()
     }
     fn check(&self, case: &LinCase) -> Outcome {
         let model = case.to_rooc();
